@@ -118,6 +118,10 @@ type Scenario struct {
 	MaxInvisible int
 	// NoSelectForcing disables enumeration of ready select cases.
 	NoSelectForcing bool
+	// CapKey, if set, turns an execution cut at the horizon (MaxPoints) into a
+	// violation when it returns a non-empty key (C11: still running long after
+	// the cancellation became visible).
+	CapKey func(x *Exec) string
 	// RepeatKey, if non-empty, declares that the executions of this scenario
 	// share an object under test on purpose (C10: one compiled artefact run
 	// again and again). If the same schedule then gives two different
@@ -697,6 +701,7 @@ func Explore(t *testing.T, sc *Scenario, maxExec int) Stats {
 		return st
 	}
 	checkedAlt := false
+	leaky := 0
 	var rec func(prefix []int) bool
 	rec = func(prefix []int) bool {
 		if maxExec > 0 && st.Executions >= maxExec {
@@ -705,6 +710,14 @@ func Explore(t *testing.T, sc *Scenario, maxExec int) Stats {
 		}
 		x, obs := runOne(t, sc, prefix)
 		st.Executions++
+		if x.Leak || x.CapHit || x.Deadlock {
+			// such an execution abandons its goroutines (and their VMs): bound the damage
+			leaky++
+			if leaky > 40 {
+				st.CapHits++
+				return false
+			}
+		}
 		st.Transitions += len(x.Points)
 		if len(x.Points) > st.MaxPoints {
 			st.MaxPoints = len(x.Points)
@@ -733,6 +746,9 @@ func Explore(t *testing.T, sc *Scenario, maxExec int) Stats {
 		case x.Violation != "":
 			kv := strings.SplitN(x.Violation, "\x00", 2)
 			key, detail = kv[0], kv[1]
+		case x.CapHit && sc.CapKey != nil && sc.CapKey(x) != "":
+			key = sc.CapKey(x)
+			detail = fmt.Sprintf("the execution was still running after %d scheduling points", len(x.Points))
 		case x.CapHit:
 			st.CapHits++
 		default:
@@ -763,6 +779,8 @@ func Explore(t *testing.T, sc *Scenario, maxExec int) Stats {
 					k2 := ""
 					if y.Violation != "" {
 						k2 = strings.SplitN(y.Violation, "\x00", 2)[0]
+					} else if y.CapHit && sc.CapKey != nil {
+						k2 = sc.CapKey(y)
 					} else if !y.CapHit {
 						if y.Deadlock {
 							obs2 = "DEADLOCK " + obs2
